@@ -53,3 +53,117 @@ def run_replay(payload, fast_check=False, keep=None):
         return json.loads(r.stdout)
     finally:
         if not keep: os.remove(path)
+
+# ---------------------------------------------------------------- queries
+class Query:
+    """One solver obligation. expect 'unsat' (property / unwinding / obligation) or 'sat' (vacuity witness).
+    ops: operation objects whose results are replayed natively when a model is found."""
+    def __init__(self, name, formula, expect='unsat', kind='property', ops=None, known=None, world=None, describe=None):
+        self.name, self.formula, self.expect, self.kind = name, formula, expect, kind
+        self.ops, self.known, self.world, self.describe = ops or [], known or [], world, describe
+
+def solver_for(base, timeout_ms):
+    s = z3.Solver()
+    s.set('timeout', int(timeout_ms))
+    for c in base: s.add(c)
+    return s
+
+def check_formula(base, formula, timeout_ms):
+    s = solver_for(base, timeout_ms)
+    s.add(formula)
+    t = time.time(); r = s.check(); dt = time.time() - t
+    return str(r), (s.model() if r == z3.sat else None), dt
+
+def normalize_real(op_json, real):
+    """bring a replay output into the shape of the interpreter's decode()"""
+    op = op_json['op']
+    if op == 'walk': return [e[:2] + ([e[2]] if e[1] == 'redirect' else []) for e in real['entries']]
+    if op == 'specifiers': return sorted(real['entries'])
+    if op in ('validate', 'valid'):
+        if real.get('ok'): return {'ok': True}
+        e = real['error']
+        rid = e['rid'] or 0
+        if e['cat'] == 'module' and e['kind'] != 'MissingDynamic': rid = 0
+        return {'ok': False, 'error': {'cat': e['cat'], 'specifier': e['specifier'] if e['specifier'] is not None else 255, 'rid': rid, 'kindname': e['kind']}}
+    return real
+def normalize_decoded(op_json, d, mir=None):
+    if op_json['op'] in ('validate', 'valid') and not d.get('ok'):
+        e = dict(d['error'])
+        if mir is not None:
+            names = mir.enums['ModuleErrorKind'] if e['cat'] == 'module' else mir.enums['ResolutionError']
+            e['kindname'] = names[e['kind']] if e['kind'] < len(names) else '?'
+        e.pop('kind', None)
+        return {'ok': False, 'error': e}
+    return d
+
+def replay_model(query, model, mir, fast_check, keep_path=None):
+    """replay the world + ops of a model natively; returns (matches, details)"""
+    world = query.world.to_json(model)
+    ops = [o.op_json(model) for o in query.ops]
+    decoded = [normalize_decoded(oj, o.decode(model), mir) for oj, o in zip(ops, query.ops)]
+    payload = {'world': world, 'ops': ops}
+    out = run_replay(payload, fast_check=fast_check, keep=keep_path)
+    reals = [normalize_real(oj, r) for oj, r in zip(ops, out['outputs'])]
+    ok = all(d == r for d, r in zip(decoded, reals))
+    return ok, {'world': world, 'ops': ops, 'interpreter': decoded, 'real': reals}
+
+# ---------------------------------------------------------------- known findings
+def load_known_findings(prop):
+    path = os.path.join(VERIF, 'known_findings.jsonl')
+    out = []
+    if os.path.exists(path):
+        for line in open(path):
+            line = line.strip()
+            if not line or line.startswith('#'): continue
+            if line.startswith('fixed:'): continue
+            e = json.loads(line)
+            if e.get('property') == prop: out.append(e)
+    return out
+
+# ---------------------------------------------------------------- running a list of queries for one cube
+def run_queries(base, queries, mir, timeout_ms, fast_check, prop, cube_name, known_entries, replay_dir):
+    """returns dict with per-query records, violations, known hits, inconclusive reasons"""
+    rec = {'cube': cube_name, 'queries': [], 'violations': [], 'known': [], 'inconclusive': [], 'replayed': 0, 'solver_s': 0.0}
+    active = {e['signature']: e for e in known_entries}
+    for q in queries:
+        listed = [k for k in q.known if k[0] in active]
+        f = q.formula
+        if listed and q.expect == 'unsat':
+            f = z3.And(q.formula, *[z3.Not(k[1]) for k in listed])
+        r, model, dt = check_formula(base, f, timeout_ms)
+        rec['solver_s'] += dt
+        qr = {'name': q.name, 'kind': q.kind, 'expect': q.expect, 'verdict': r, 'solver_s': round(dt, 3)}
+        if listed: qr['excluding_known'] = [k[0] for k in listed]
+        rec['queries'].append(qr)
+        if r == 'unknown':
+            rec['inconclusive'].append(f'{q.name}: solver timeout/unknown after {dt:.0f}s'); continue
+        if q.expect == 'sat':
+            if r != 'sat': rec['inconclusive'].append(f'vacuity witness {q.name} is {r}: the harness does not reach what it claims to cover')
+            elif q.ops:
+                ok, det = replay_model(q, model, mir, fast_check); rec['replayed'] += 1
+                qr['replay_matches'] = ok
+                qr['sample'] = {'world': det['world'], 'ops': det['ops'][:2], 'real': det['real'][:2]}
+                if not ok: rec['inconclusive'].append(f'witness {q.name}: interpreter and real crate disagree: ' + json.dumps(det)[:1500])
+            continue
+        if r == 'sat':
+            if q.kind != 'property':
+                rec['inconclusive'].append(f'{q.kind} obligation {q.name} is sat (bound too small or model limit reached)'); continue
+            os.makedirs(replay_dir, exist_ok=True)
+            path = os.path.join(replay_dir, f'{prop}_{cube_name}_{q.name}.json'.replace(' ', '_').replace('/', '_'))
+            ok, det = replay_model(q, model, mir, fast_check, keep_path=path); rec['replayed'] += 1
+            if ok:
+                det['describe'] = q.describe(model) if q.describe else None
+                open(path + '.report', 'w').write(json.dumps(det, indent=1))
+                rec['violations'].append({'query': q.name, 'replay': path, 'detail': det})
+            else:
+                rec['inconclusive'].append(f'counterexample of {q.name} does not reproduce natively (encoding or model wrong): ' + json.dumps(det)[:1500])
+        # known findings: confirm each still reproduces, report it, never fail on it
+        for sig, kf in listed:
+            r2, m2, dt2 = check_formula(base, z3.And(q.formula, kf), timeout_ms)
+            rec['solver_s'] += dt2
+            if r2 == 'sat':
+                ok, det = replay_model(q, m2, mir, fast_check); rec['replayed'] += 1
+                if ok: rec['known'].append({'signature': sig, 'query': q.name, 'what': active[sig].get('what', ''), 'example': {'world': det['world'], 'ops': det['ops'], 'real': det['real']}})
+                else: rec['inconclusive'].append(f'known finding {sig} / {q.name}: model does not reproduce natively: ' + json.dumps(det)[:1500])
+            elif r2 == 'unknown': rec['inconclusive'].append(f'known finding {sig} / {q.name}: solver timeout')
+    return rec
